@@ -38,7 +38,11 @@ GROUPS = {
         U("nodebuild", "MakeDefaultValueUxn"), U("nodebuild", "MakeArgs"), U("nodebuild", "MakeKwargs"), U("nodebuild", "MakeActive"),
         U("nodebuild", "UsageExecNodeProperty"), U("nodebuild", "ValidateDependencies"), U("nodebuild", "ExecNodePostInit"), U("nodebuild", "LazyCall"),
     ],
-    "threads": [U("threads", "InDescriptionContext"), U("threads", "ThreadsafeMakeDag")],
+    "retwrap": [
+        U("retwrap", "WrapInIteratorHelper"), U("retwrap", "WrapInSeq", "list"), U("retwrap", "WrapInSeq", "tuple"), U("retwrap", "WrapInDict"),
+        U("retwrap", "WrapInUxn"), U("retwrap", "WrapInUxns"),
+    ],
+    "threads": [U("threads", "InDescriptionContext"), U("threads", "ThreadsafeMakeDag"), U("threads", "WrapMakeDag")],
 }
 
 BUDGETS = dict(DEFAULT_BUDGETS)
